@@ -4,7 +4,10 @@
 -/
 import GormModel.Model.Scan
 import GormModel.Lemmas.Scan
+import GormModel.Model.SchemaAttrs
+import GormModel.Lemmas.SchemaAttrs
 import GormModel.Gen.BackfillFacts
+import GormModel.Gen.SchemaDeclFacts
 namespace Gorm
 open Gorm.Scan
 
@@ -565,6 +568,159 @@ theorem C03_maps_preset_keys_current_tree :
 
 /-- the back-fill code the two facts are about was found by the extractor (they are not about nothing) -/
 theorem C03_backfill_facts_found : Gen.backfillCreateFound = true ∧ Gen.backfillMapsLoopFound = true := by decide
+
+/-! ### round 4: FIELD DECLARATIONS → the schema attributes the create path depends on (Model.SchemaAttrs:
+    ParseTagSetting, ParseField, the schema-level steps of ParseWithSpecialTableName, Create's RETURNING / INSERT lists) -/
+
+section Declarations
+open Gorm.Attrs
+
+/-- DATABASE DEFAULTS ARE ASKED BACK, WHATEVER THE WRITE PERMISSION.  For EVERY struct declaration (any tags, any
+    embedding): a parsed field that is backed by a column, has a default and whose default gorm cannot turn into a Go
+    value (`default:(expr)`, `default:null`, `autoIncrement`, …) is a member of `Schema.FieldsWithDefaultDBValue`, and its
+    column is in the RETURNING list Create builds when the dialector supports RETURNING.  Nothing is assumed about
+    `Creatable` / `Updatable` / `Readable`: a read-only (`->`), update-only (`<-:update`) or `<-:false` column with a
+    database default is read back exactly like a writable one. -/
+theorem C03_db_default_returned_any_permission (d : Decl) (i : Nat) (f : AField)
+    (hf : nth? (parseDecl d).fields i = some f)
+    (htyped : f.typed = true) (hdef : f.hasDefault = true) (hdb : f.defaultIface = none) :
+    i ∈ (parseDecl d).withDefaultDB ∧
+    ∃ l, returningList true (parseDecl d) = some l ∧ f.dbName ∈ l := by
+  have hd : f.dbDefault = true := by simp [AField.dbDefault, htyped, hdef, hdb]
+  have hi : i ∈ (parseDecl d).withDefaultDB := defaultsStep_lists_dbDefault _ _ i f hf hd
+  refine ⟨hi, withDefaultNames (parseDecl d), ?_, ?_⟩
+  · unfold returningList
+    have hne : (parseDecl d).withDefaultDB.isEmpty = false := by
+      cases hw : (parseDecl d).withDefaultDB with
+      | nil => rw [hw] at hi; cases hi
+      | cons a l => rfl
+    simp [hne]
+  · unfold withDefaultNames
+    exact List.mem_filterMap.mpr ⟨i, hi, by rw [hf]; rfl⟩
+
+/-- non-vacuity (the shape of the seeded fault class): `ID int64 column:parcel_no`, a READ-ONLY `Serial` with a
+    DB-expression default, a writable `Batch` with the same default — both defaults and the key are asked back, the
+    read-only column is not in the INSERT -/
+example :
+    let d : Decl := .leaf ⟨"ID", .int, "column:parcel_no", "id", false, false⟩
+      (.leaf ⟨"Serial", .string, "->;default:(lower(hex(randomblob(6))))", "serial", false, false⟩
+      (.leaf ⟨"Batch", .string, "default:(lower(hex(randomblob(6))))", "batch", false, false⟩ .nil))
+    returningList true (parseDecl d) = some ["serial", "batch", "parcel_no"] ∧
+    insertColsA true (parseDecl d) (fun _ => true) = ["batch", "parcel_no"] ∧
+    (parseDecl d).prioritized = some 0 := by decide
+
+/-- THE FIELD NAMED `ID` IS THE KEY, WHATEVER ITS COLUMN IS CALLED.  For every list of parsed fields (top-level and
+    embedded, any tags): if exactly one field carries the Go name `ID`, no field is tagged `primaryKey`, and no OTHER
+    field owns a column spelled `id` / `ID` (nor is some field named `id`), then the schema-level steps make that field the
+    prioritized primary field and the only primary field — its column name plays no role (`column:parcel_no`). -/
+theorem C03_id_field_is_key_any_column (fs0 : List AField) (i : Nat) (f : AField)
+    (hf : (nameCols fs0)[i]? = some f) (hname : f.name = "ID")
+    (huniq : ∀ (j : Nat) (g : AField), (nameCols fs0)[j]? = some g → g.name = "ID" → j = i)
+    (hnoid : ∀ (j : Nat) (g : AField), (nameCols fs0)[j]? = some g → g.name ≠ "id")
+    (hcols : ∀ (j : Nat) (g : AField), (nameCols fs0)[j]? = some g → j ≠ i → g.dbName ≠ "id" ∧ g.dbName ≠ "ID")
+    (hnopk : ∀ (j : Nat) (g : AField), (nameCols fs0)[j]? = some g → g.primaryKey = false) :
+    (finish fs0).prioritized = some i ∧ (finish fs0).primaryFields = [i] := by
+  obtain ⟨h1, h2, _⟩ := prioritize_id_field (nameCols fs0) i f hf hname huniq hnoid hcols hnopk
+  exact ⟨h1, h2⟩
+
+/-- … and when that key is backed by a column (it does not carry `-`: the negation of finding F28's pattern), is of an
+    integer kind and has no `autoIncrement` tag, it is a database-generated key: `HasDefaultValue` / `AutoIncrement` are
+    inferred and the key is in `FieldsWithDefaultDBValue`, hence its column — under whatever name — is in Create's
+    RETURNING list. -/
+theorem C03_id_key_returned_partial (fs0 : List AField) (i : Nat) (f : AField)
+    (hf : (nameCols fs0)[i]? = some f) (hname : f.name = "ID")
+    (huniq : ∀ (j : Nat) (g : AField), (nameCols fs0)[j]? = some g → g.name = "ID" → j = i)
+    (hnoid : ∀ (j : Nat) (g : AField), (nameCols fs0)[j]? = some g → g.name ≠ "id")
+    (hcols : ∀ (j : Nat) (g : AField), (nameCols fs0)[j]? = some g → j ≠ i → g.dbName ≠ "id" ∧ g.dbName ≠ "ID")
+    (hnopk : ∀ (j : Nat) (g : AField), (nameCols fs0)[j]? = some g → g.primaryKey = false)
+    (htyped : f.typed = true) (hint : f.gormDT = .int ∨ f.gormDT = .uint) (hnotag : hasTag f.tags "AUTOINCREMENT" = false) :
+    i ∈ (finish fs0).withDefaultDB ∧
+    nth? (finish fs0).fields i = some { f with primaryKey := true, hasDefault := true, autoInc := true } ∧
+    ∃ l, returningList true (finish fs0) = some l ∧ f.dbName ∈ l := by
+  obtain ⟨h1, _, h3⟩ := prioritize_id_field (nameCols fs0) i f hf hname huniq hnoid hcols hnopk
+  have hn : nth? (nameCols fs0) i = some f := by rw [nth?_eq_getElem?]; exact hf
+  have hn' : nth? (setNth (nameCols fs0) i { f with primaryKey := true }) i = some { f with primaryKey := true } := by
+    rw [nth?_setNth]; simp [hn]
+  obtain ⟨hm, hfield⟩ := defaultsStep_lists_int_key _ i { f with primaryKey := true } hn' htyped hint hnotag
+  have hfin : (finish fs0).withDefaultDB =
+      (defaultsStep (setNth (nameCols fs0) i { f with primaryKey := true }) (some i)).2 := by
+    show (defaultsStep _ _).2 = _
+    rw [h3, h1]
+  have hfin2 : (finish fs0).fields =
+      (defaultsStep (setNth (nameCols fs0) i { f with primaryKey := true }) (some i)).1 := by
+    show (defaultsStep _ _).1 = _
+    rw [h3, h1]
+  have hi : i ∈ (finish fs0).withDefaultDB := by rw [hfin]; exact hm
+  have hfld : nth? (finish fs0).fields i = some { f with primaryKey := true, hasDefault := true, autoInc := true } := by
+    rw [hfin2]; exact hfield
+  refine ⟨hi, hfld, withDefaultNames (finish fs0), ?_, ?_⟩
+  · unfold returningList
+    have hne : (finish fs0).withDefaultDB.isEmpty = false := by
+      cases hw : (finish fs0).withDefaultDB with
+      | nil => rw [hw] at hi; cases hi
+      | cons a l => rfl
+    simp [hne]
+  · unfold withDefaultNames
+    exact List.mem_filterMap.mpr ⟨i, hi, by rw [hfld]; rfl⟩
+
+/-- finding F28 (reproduced on the unchanged tree: AutoMigrate and Create fail with a syntax error): the hypothesis
+    "backed by a column" is needed — an IGNORED field named `ID` (`gorm:"-"`) is still made the prioritized primary key and
+    is listed in `FieldsWithDefaultDBValue` with an EMPTY column name, which Create puts into RETURNING. -/
+theorem C03_ignored_id_counterexample :
+    let d : Decl := .leaf ⟨"ID", .int, "-", "id", false, false⟩ (.leaf ⟨"Name", .string, "", "name", false, false⟩ .nil)
+    (parseDecl d).prioritized = some 0 ∧ (parseDecl d).primaryFields = [0] ∧
+    ((nth? (parseDecl d).fields 0).map (fun f => (f.typed, f.dbName))) = some (false, "") ∧
+    returningList true (parseDecl d) = some [""] := by decide
+
+/-- EVERY COLUMN THE DATABASE FILLS IS READ BACK — partial: for every declaration, a column-backed field with a default
+    either is in `FieldsWithDefaultDBValue` (asked back with RETURNING) or has a LITERAL default and the create
+    permission (gorm writes the literal itself, Model.Scan section x) — provided no field combines a literal default with
+    a MISSING create permission (the negation of finding F27's pattern). -/
+theorem C03_default_column_read_back_partial (d : Decl) (i : Nat) (f : AField)
+    (hf : nth? (parseDecl d).fields i = some f) (htyped : f.typed = true) (hdef : f.hasDefault = true)
+    (hno27 : f.defaultIface.isSome = true → f.creatable = true) :
+    i ∈ (parseDecl d).withDefaultDB ∨ (f.defaultIface.isSome = true ∧ f.creatable = true) := by
+  cases hi : f.defaultIface with
+  | none => exact Or.inl (C03_db_default_returned_any_permission d i f hf htyped hdef hi).1
+  | some v => exact Or.inr ⟨rfl, hno27 (by rw [hi]; rfl)⟩
+
+/-- finding F27 (reproduced on the unchanged tree): `V int64 gorm:"->;default:42"` — the literal default makes `V` no
+    member of `FieldsWithDefaultDBValue`, the missing create permission keeps it out of the INSERT (struct and slice, zero
+    or not): the database applies DEFAULT 42 to the row, Create neither writes 42 into the record nor asks the column
+    back, the in-memory record keeps 0. -/
+theorem C03_readonly_literal_default_counterexample :
+    let d : Decl := .leaf ⟨"ID", .uint, "", "id", false, false⟩
+      (.leaf ⟨"V", .int, "->;default:42", "v", false, false⟩ (.leaf ⟨"Payload", .string, "", "payload", false, false⟩ .nil))
+    returningList true (parseDecl d) = some ["id"] ∧
+    insertColsA true (parseDecl d) (fun _ => false) = ["payload"] ∧
+    insertColsA false (parseDecl d) (fun _ => true) = ["payload", "id"] ∧
+    ((owner? (parseDecl d) "v").map (fun f => (f.typed, f.readable, f.creatable, f.hasDefault, f.defaultIface))) =
+      some (true, true, false, true, some (.int 42)) := by decide
+
+/-- non-vacuity of the partial theorem / what the repair direction looks like: with a DB-EXPRESSION default the same
+    read-only field IS asked back -/
+example :
+    let d : Decl := .leaf ⟨"ID", .uint, "", "id", false, false⟩ (.leaf ⟨"V", .int, "->;default:(abs(-7))", "v", false, false⟩ .nil)
+    returningList true (parseDecl d) = some ["v", "id"] := by decide
+
+/-- tag parsing details the attributes depend on: keys are case-insensitive, `\;` escapes the separator, a bare key is
+    its own value, `primaryKey:false` is no key, the `<-` value is matched case-sensitively -/
+example : parseTagSetting "PrimaryKey;column:a\\;b; default : x:y" = [("PRIMARYKEY", "PRIMARYKEY"), ("COLUMN", "a;b"), ("DEFAULT", " x:y")] := by decide
+example : (parseField ⟨"Code", .int, "primaryKey:false;<-:Create", "code", false, false⟩).primaryKey = false ∧
+    (parseField ⟨"Code", .int, "primaryKey:false;<-:Create", "code", false, false⟩).creatable = false := by decide
+
+/-- THE TWO SOURCE PLACES THE THEOREMS ABOVE ARE ABOUT ARE WHAT THE MODEL TRANSCRIBES (regenerated from schema/schema.go on
+    every run): the `if` that fills `FieldsWithDefaultDBValue` reads exactly DataType / HasDefaultValue /
+    DefaultValueInterface of the field — no permission (`AField.dbDefault`) — and the prioritized primary field is looked
+    up with `LookUpField("id")`, then `LookUpField("ID")`, i.e. column names first and Go FIELD names second
+    (`keyCandidate`). -/
+theorem C03_schema_decl_facts :
+    Gen.defaultDBLoopFound = true ∧
+    Gen.defaultDBCondReads = ["DataType", "DefaultValueInterface", "HasDefaultValue"] ∧
+    (∀ p ∈ ["Creatable", "Updatable", "Readable"], p ∉ Gen.defaultDBCondReads) ∧
+    Gen.priorityLookups = ["schema.LookUpField(\"id\")", "schema.LookUpField(\"ID\")"] := by decide
+
+end Declarations
 
 /-- non-vacuity: representable values exist at the boundaries; the partial theorem's hypothesis is satisfiable
     by non-trivial batches -/
